@@ -532,6 +532,26 @@ func (g *Gen) genTxn(m *Model, live []uint32, o txnGenOpts) TxnSpec {
 			break
 		}
 	}
+	// the reorder below must not change the issue order of two operations on one row (the model
+	// boundaries are computed in generation order): it is applied only when every row is touched once
+	rowUse := map[int64]int{}
+	for _, op := range spec.Ops {
+		switch {
+		case op.Ref > 0:
+			rowUse[-int64(op.Ref)]++
+		case op.T == "at" || op.T == "del":
+			rowUse[int64(op.Off)]++
+		case op.Key != "" || op.T == "qkey" || op.T == "upskey" || op.T == "delkey" || op.T == "inskey":
+			if offs, ok := table[op.Key]; ok {
+				rowUse[int64(offs[0])]++
+			}
+		}
+	}
+	for _, n := range rowUse {
+		if n > 1 {
+			descending = false
+		}
+	}
 	if descending && len(pickedRows) > 1 {
 		// force descending offsets among the updates of existing rows (negative deltas in the buffer)
 		var idxs []int
